@@ -35,6 +35,10 @@ def run_shard(prop, shard, seed, strategy, judge, *, observe_kwargs=None, shrink
     okw = observe_kwargs or {}
 
     def case(spec):
+        if ctx.inconclusive >= 3:
+            # three watchdog expiries in this shard: stop paying for it (inconclusive, never a violation)
+            ctx.extra["shards_cut_short_by_watchdog"] = 1
+            return
         obs = observe.run(spec, **okw)
         if obs.outcome == "timeout":
             ctx.inconclusive += 1
